@@ -373,6 +373,9 @@ lyd_diff_add(const struct lyd_node *node, enum lyd_diff_op op, const char *orig_
             for (elem = diff_parent; elem->next && (elem->next->schema == elem->schema); elem = elem->next) {}
             if (elem != diff_parent) {
                 LY_CHECK_RET(lyd_insert_after(elem, diff_parent));
+
+                /* the moved node may have been the first diff sibling */
+                *diff = lyd_first_sibling(*diff);
             }
         }
 
